@@ -40,14 +40,8 @@ def main():
     if quick:
         import random
         rnd = random.Random(ck.seed + 12)
-        by = {}
-        for t in tpl:
-            by.setdefault(t[0], []).append(t)
         quota = {'list': 4, 'list-mixed': 3, 'quant-ident': 6, 'regex-rewrite': 3, 'modifier': 4, 'condition': 6}
-        tpl = []
-        for fam, ts in by.items():
-            n = quota.get(fam)
-            tpl += ts if n is None or n >= len(ts) else rnd.sample(ts, n)
+        tpl = templates.thin(tpl, quota, rnd)
     ck.extra['templates'] = len(tpl)
     ck.run_units([(name, templates.render(rule)) for _, name, rule in tpl], run_unit)
     ck.finish('(a) z3: all optimiser outputs of one (rule, switches) agree on every document; (b) write guard on every explored '
